@@ -814,8 +814,12 @@ def call_task(rec, task, opts, pin, pout, cls, pre=""):
         isd, where = classify_exception(e, boot.REPO)
         if not isd:
             raise
-        rec.fail(f"{pre}raises/{type(e).__name__}/{where}/{cls}",
-                 f"dclab-{task} raised {type(e).__name__}: {str(e)[:300]}")
+        sig = f"raises/{type(e).__name__}/{where}/{cls}"
+        if cls == "zero-events":
+            # one signature per task for the class "file without events"
+            sig = f"raises/zero-events/{task}"
+        rec.fail(pre + sig,
+                 f"dclab-{task} raised {type(e).__name__} in {where}: {str(e)[:300]}")
         return False
 
 
@@ -1161,6 +1165,16 @@ def compare(rec, spec, info, pin, pout, task, opts, cls, pre, first):
             ho.visititems(visit)
 
     # -------------------- through dclab
+    if not keep_logs:
+        # `--strip-logs` also removes the marker logs the defect rules look at
+        # (dclab_issue_141, shapein-acquisition): the stored data are compared
+        # above, the view of the output is not comparable for those features
+        if "dclab_issue_141" in lognames:
+            unspec.add("volume")
+        if "shapein-acquisition" in lognames:
+            unspec.update(["inert_ratio_raw", "inert_ratio_cvx"])
+        if unspec:
+            rec.skip("view-of-feature-whose-marker-log-was-stripped")
     if cls == "zero-events":
         rec.skip("zero-events-view-comparison-not-run")
         return
@@ -1279,6 +1293,18 @@ def condense_oracle(rec, cmp, pin, pout, opts, cls, first, unspec=()):
 # ------------------------------------------------------------------ tdms
 
 def run_tdms(spec, rec, d):
+    try:
+        _run_tdms(spec, rec, d)
+    except OSError as e:
+        if "Could not load meta information" in str(e):
+            # imageio-ffmpeg gives up reading the video header when the machine
+            # is overloaded (sub-process timeout): inconclusive, not a verdict
+            rec.skip("tdms-ffmpeg-timeout-under-load")
+            return
+        raise
+
+
+def _run_tdms(spec, rec, d):
     rec.cls("task:tdms2rtdc")
     rec.nontrivial()
     z = pathlib.Path(boot.REPO, "tests", "data", spec["tdms"])
@@ -1296,6 +1322,8 @@ def run_tdms(spec, rec, d):
         cli.tdms2rtdc(path_tdms=src, path_rtdc=pout, compute_features=cf,
                       skip_initial_empty_image=skip, skip_final_empty_image=skip)
     except Exception as e:  # noqa
+        if isinstance(e, OSError) and "Could not load meta information" in str(e):
+            raise
         isd, where = classify_exception(e, boot.REPO)
         if not isd:
             raise
